@@ -8,8 +8,8 @@ from . import common, prims
 
 PROPERTY = "C16"
 LEVEL = "other"
-CONFIGS_QUICK = ["std"]
-CONFIGS_THOROUGH = ["std"]
+CONFIGS_QUICK = ["std", "std-rel"]
+CONFIGS_THOROUGH = ["std", "std-rel"]
 EXPLANATION = (
     "Gating and who-may-arm analysis on the std build's MIR: (GATE) every child-poll site of join/try_join/merge/zip/"
     "FutureGroup/StreamGroup (all arities) is control-dependent on clear_ready(i)==true for the polled child's own index; "
@@ -35,19 +35,19 @@ RULES = {
 def run(ctx):
     for rid, text in RULES.items():
         ctx.rule(rid, text)
-    cfg = "std"
-    ctx.current_config = cfg
-    M = ctx.model(cfg)
-    units = families.subwaker_units(M)
-    for u in units:
-        rule_gate(ctx, u)
-        rule_cfg(ctx, M, u)
-    rule_armers(ctx, M, units)
-    rule_ownwaker(ctx, M)
-    prims.check_bits(ctx, M, "C16.BITS")
-    ctx.floor("C16.GATE", cfg, 4 * 78 + 10)
-    ctx.floor("C16.ARMERS", cfg, 78 + 12 + 6)
-    ctx.floor("C16.OWNWAKER", cfg, 5)
+    for cfg in ctx.configs:
+        ctx.current_config = cfg
+        M = ctx.model(cfg)
+        units = families.subwaker_units(M)
+        for u in units:
+            rule_gate(ctx, u)
+            rule_cfg(ctx, M, u)
+        rule_armers(ctx, M, units)
+        rule_ownwaker(ctx, M)
+        prims.check_bits(ctx, M, "C16.BITS")
+        ctx.floor("C16.GATE", cfg, 4 * 78 + 10)
+        ctx.floor("C16.ARMERS", cfg, 78 + 12 + 6)
+        ctx.floor("C16.OWNWAKER", cfg, 5)
     return {}
 
 
